@@ -372,6 +372,9 @@ private:
 
         auto payload_format_ind = props[prop::payload_format_indicator]
             .value_or(default_payload_format_ind);
+        if (payload_format_ind > 1)
+            return client::error::malformed_packet;
+
         if (
             payload_format_ind == 1 &&
             validate_mqtt_utf8(payload) != validation_result::valid
